@@ -204,6 +204,13 @@ package arvados
 //@   calls filenode.appendSegment#1: requires istype($0, storedSegment) && unbox($0, storedSegment).length > 0 && unbox($0, storedSegment).offset >= 0 && unbox($0, storedSegment).offset + unbox($0, storedSegment).length <= unbox($0, storedSegment).size
 //@   calls filenode.appendSegment#1: requires pos + int64(unbox($0, storedSegment).offset) == max(offset, pos) && pos + int64(unbox($0, storedSegment).offset) + int64(unbox($0, storedSegment).length) == min(offset + length, next)
 //@   calls filenode.appendSegment#1: requires unbox($0, storedSegment).locator == seg.locator && unbox($0, storedSegment).size == seg.size && next == pos + int64(seg.length)
+//@   # names: the stream name (first token) and the file name part of a file
+//@   # token are each unescaped exactly once; the path is their concatenation
+//@   ghost un string = ""
+//@   calls manifestUnescape#1: requires $0 == token
+//@   calls manifestUnescape#2: requires $0 == toks[2]
+//@   calls manifestUnescape#2: set un = $r
+//@   calls dirnode.createFileAndParents#1: requires $0 == dirname + "/" + un
 //@   # completeness: the segments appended for one file token cover its stream
 //@   # range [offset, offset+length) without gaps, starting exactly at offset
 //@   # (cov = end of what has been covered so far)
